@@ -1699,17 +1699,35 @@ where
         }
     }
 
+    /// Check that the element with the given tag, if present,
+    /// holds a primitive value which can be extended,
+    /// so that a failed extension does not take the element away.
+    fn check_extensible(&self, tag: Tag) -> ApplyResult {
+        match self.entries.get(&tag).map(|e| e.value()) {
+            Some(Value::PixelSequence(..)) => IncompatibleTypesSnafu {
+                kind: ValueType::PixelSequence,
+            }
+            .fail(),
+            Some(Value::Sequence(..)) => IncompatibleTypesSnafu {
+                kind: ValueType::DataSetSequence,
+            }
+            .fail(),
+            _ => Ok(()),
+        }
+    }
+
     fn apply_push_str_impl(&mut self, tag: Tag, string: Cow<'static, str>) -> ApplyResult {
+        self.check_extensible(tag)?;
         if let Some(e) = self.entries.remove(&tag) {
             let (header, value) = e.into_parts();
             match value {
                 Value::Primitive(mut v) => {
                     self.invalidate_if_charset_changed(tag);
                     // extend value
-                    v.extend_str([string]).context(ModifySnafu)?;
-                    // reinsert element
+                    let outcome = v.extend_str([string]).context(ModifySnafu);
+                    // reinsert element (also when the extension failed)
                     self.put(DataElement::new(tag, header.vr, v));
-                    Ok(())
+                    outcome
                 }
 
                 Value::PixelSequence(..) => IncompatibleTypesSnafu {
@@ -1734,15 +1752,16 @@ where
     }
 
     fn apply_push_i32_impl(&mut self, tag: Tag, integer: i32) -> ApplyResult {
+        self.check_extensible(tag)?;
         if let Some(e) = self.entries.remove(&tag) {
             let (header, value) = e.into_parts();
             match value {
                 Value::Primitive(mut v) => {
                     // extend value
-                    v.extend_i32([integer]).context(ModifySnafu)?;
-                    // reinsert element
+                    let outcome = v.extend_i32([integer]).context(ModifySnafu);
+                    // reinsert element (also when the extension failed)
                     self.put(DataElement::new(tag, header.vr, v));
-                    Ok(())
+                    outcome
                 }
 
                 Value::PixelSequence(..) => IncompatibleTypesSnafu {
@@ -1767,15 +1786,16 @@ where
     }
 
     fn apply_push_u32_impl(&mut self, tag: Tag, integer: u32) -> ApplyResult {
+        self.check_extensible(tag)?;
         if let Some(e) = self.entries.remove(&tag) {
             let (header, value) = e.into_parts();
             match value {
                 Value::Primitive(mut v) => {
                     // extend value
-                    v.extend_u32([integer]).context(ModifySnafu)?;
-                    // reinsert element
+                    let outcome = v.extend_u32([integer]).context(ModifySnafu);
+                    // reinsert element (also when the extension failed)
                     self.put(DataElement::new(tag, header.vr, v));
-                    Ok(())
+                    outcome
                 }
 
                 Value::PixelSequence(..) => IncompatibleTypesSnafu {
@@ -1800,15 +1820,16 @@ where
     }
 
     fn apply_push_i16_impl(&mut self, tag: Tag, integer: i16) -> ApplyResult {
+        self.check_extensible(tag)?;
         if let Some(e) = self.entries.remove(&tag) {
             let (header, value) = e.into_parts();
             match value {
                 Value::Primitive(mut v) => {
                     // extend value
-                    v.extend_i16([integer]).context(ModifySnafu)?;
-                    // reinsert element
+                    let outcome = v.extend_i16([integer]).context(ModifySnafu);
+                    // reinsert element (also when the extension failed)
                     self.put(DataElement::new(tag, header.vr, v));
-                    Ok(())
+                    outcome
                 }
 
                 Value::PixelSequence(..) => IncompatibleTypesSnafu {
@@ -1833,15 +1854,16 @@ where
     }
 
     fn apply_push_u16_impl(&mut self, tag: Tag, integer: u16) -> ApplyResult {
+        self.check_extensible(tag)?;
         if let Some(e) = self.entries.remove(&tag) {
             let (header, value) = e.into_parts();
             match value {
                 Value::Primitive(mut v) => {
                     // extend value
-                    v.extend_u16([integer]).context(ModifySnafu)?;
-                    // reinsert element
+                    let outcome = v.extend_u16([integer]).context(ModifySnafu);
+                    // reinsert element (also when the extension failed)
                     self.put(DataElement::new(tag, header.vr, v));
-                    Ok(())
+                    outcome
                 }
 
                 Value::PixelSequence(..) => IncompatibleTypesSnafu {
@@ -1866,15 +1888,16 @@ where
     }
 
     fn apply_push_f32_impl(&mut self, tag: Tag, number: f32) -> ApplyResult {
+        self.check_extensible(tag)?;
         if let Some(e) = self.entries.remove(&tag) {
             let (header, value) = e.into_parts();
             match value {
                 Value::Primitive(mut v) => {
                     // extend value
-                    v.extend_f32([number]).context(ModifySnafu)?;
-                    // reinsert element
+                    let outcome = v.extend_f32([number]).context(ModifySnafu);
+                    // reinsert element (also when the extension failed)
                     self.put(DataElement::new(tag, header.vr, v));
-                    Ok(())
+                    outcome
                 }
 
                 Value::PixelSequence(..) => IncompatibleTypesSnafu {
@@ -1899,15 +1922,16 @@ where
     }
 
     fn apply_push_f64_impl(&mut self, tag: Tag, number: f64) -> ApplyResult {
+        self.check_extensible(tag)?;
         if let Some(e) = self.entries.remove(&tag) {
             let (header, value) = e.into_parts();
             match value {
                 Value::Primitive(mut v) => {
                     // extend value
-                    v.extend_f64([number]).context(ModifySnafu)?;
-                    // reinsert element
+                    let outcome = v.extend_f64([number]).context(ModifySnafu);
+                    // reinsert element (also when the extension failed)
                     self.put(DataElement::new(tag, header.vr, v));
-                    Ok(())
+                    outcome
                 }
 
                 Value::PixelSequence(..) => IncompatibleTypesSnafu {
